@@ -117,6 +117,10 @@ class HistoryRunner:
                     e = mk_event(op["ev"])
                     e.id = 2**63
                     ds[b].insert([mk_event(op["ev2"]), e])
+                elif what == "bulk_unserializable" and b in self.buckets():
+                    e = mk_event(op["ev"])
+                    e.data["bad"] = {1, 2}
+                    ds[b].insert([mk_event(op["ev2"]), e])
                 elif what == "insert_unserializable" and b in self.buckets():
                     e = mk_event(op["ev"])
                     e.data["bad"] = {1, 2}        # a set is not JSON
